@@ -113,6 +113,15 @@ CHECKS["C20"] = dict(
     ref="DESIGN.md 4/C20",
     note=NOTE_COMMON + "Outside: six-decimal precision of written matrices and other C-level formatting, images with pixel data, text.")
 
+CHECKS["C10"] = dict(
+    text="Real SVG.parse (default error mode) on documents with one faulty element of each kind {path, rect, circle, ellipse, line, polyline, polygon, g, svg, use, "
+         "text, image} next to / inside / before sibling shapes; the faulty attribute value is a template with 1-2 fully symbolic characters (they cross expat as "
+         "placeholders and become symbolic again in the module's regex/number parsers) or one of ~200 catalogued malformed values, for transform, fill, stroke, "
+         "widths, opacities, lengths, points, viewBox, preserveAspectRatio, d, style, href; dangling/self/ancestor/mutually cyclic use. Proved per path: no "
+         "exception leaves parse, and every element outside the faulty subtree has the geometry and paint of the parse without the faulty element.",
+    ref="DESIGN.md 4/C10",
+    note=NOTE_COMMON + "Outside: faults in stylesheet text, more than one fault per document, symbolic non-ASCII characters reaching str.lower() (paths end as unsupported).")
+
 NOT_APPLICABLE = {
 }
 
